@@ -204,6 +204,16 @@ fn check_config(l: &mut Local, value: &str, dirs: &[&str], assignment: &[(String
     }
     if value == "localtime" {
         l.class("localtime_value");
+        // the shorthand `parse_local()` is the same resolution: same single path, same result
+        LOG.with(|l| l.borrow_mut().clear());
+        let got_local = settings.parse_local();
+        let reads_local = LOG.with(|l| l.borrow().clone());
+        let obs_local = classify(&got_local);
+        if reads_local != exp.reads || (exp.outcome != Outcome::Unspec && obs_local != obs) {
+            l.violation("TZ resolution: parse_local() differs from resolving the value \"localtime\"", input(), format!("reads {:?}, {:?}", exp.reads, obs), format!("reads {:?}, {:?}", reads_local, obs_local));
+        } else {
+            l.class("parse_local_shorthand");
+        }
     }
     if value.starts_with('/') {
         l.class("absolute_path_value");
@@ -238,6 +248,7 @@ pub fn run(ctx: &Ctx) -> Report {
         "absolute_path_value",
         "whitespace_stripped_before_description",
         "unicode_only_whitespace_not_stripped",
+        "parse_local_shorthand",
         "no_read_at_all",
     ];
     if let Err(e) = crate::mon::c03::self_tests() {
